@@ -3,14 +3,16 @@
 import json, os, shutil, sys, subprocess
 sid, det = sys.argv[1], sys.argv[2]
 note = sys.argv[3] if len(sys.argv) > 3 else ""
-src = "/tmp/seed/%s/out" % sid
-dst = "/verif/seeded/%s" % sid
+suf = os.environ.get("SEEDSUF", "")
+src = "%s/%s/out" % (os.environ.get("SEEDROOT", "/tmp/seed"), sid)
+dst = "/verif/seeded/%s%s" % (sid, suf)
 os.makedirs(dst, exist_ok=True)
 for f in ("patch.diff", "demo_test.go", "patch.rebased.diff"):
     if os.path.exists(os.path.join(src, f)):
         shutil.copy(os.path.join(src, f), os.path.join(dst, f))
 m = json.load(open(os.path.join(src, "meta.json")))
-log = open("/tmp/v/%s.verify.log" % sid).read() if os.path.exists("/tmp/v/%s.verify.log" % sid) else ""
+vl = "/tmp/v/%s%s.verify.log" % (sid, suf)
+log = open(vl).read() if os.path.exists(vl) else ""
 m["base_commit"] = subprocess.run(["git", "-C", "/repo", "rev-parse", "--short", "HEAD"], stdout=subprocess.PIPE, text=True).stdout.strip()
 m["confirmed_in_scratch_worktree"] = {
     "how": "tools/verify_seed.sh %s: fresh worktree of /repo HEAD, git apply patch.diff, repo suite with the patch, demo with the patch (must fail), demo without the patch (must pass)" % sid,
